@@ -9,6 +9,7 @@
 //!   env renc|rdec|denc|ddec <message>
 //!   backoff <attempts> <base_ms> <max_ms>
 //!   stash new | pipe <id> <cap> | put <id> <message> | recv | recvmp | dereg <id>
+//!   pool new <count> <cap> | acquire <len> | lease | droplease <id> <0|1> | release <id> | state
 
 use crate::*;
 use futures::executor::block_on;
@@ -21,6 +22,7 @@ pub struct State {
   map: VRouterMap,
   stash: VAnonIngress,
   stash_senders: std::collections::BTreeMap<usize, VAnonSender>,
+  pool: Option<VSendPool>,
 }
 
 impl Default for State {
@@ -31,6 +33,7 @@ impl Default for State {
       map: VRouterMap::new(),
       stash: VAnonIngress::new(64),
       stash_senders: Default::default(),
+      pool: None,
     }
   }
 }
@@ -41,6 +44,35 @@ fn b(v: bool) -> String {
 
 pub fn run_op(st: &mut State, p: &[&str]) -> String {
   match p[0] {
+    "pool" => {
+      let show = |o: Option<u16>| o.map(|i| i.to_string()).unwrap_or_else(|| "none".into());
+      match (p[1], st.pool.as_mut()) {
+        ("new", _) => match VSendPool::new(p[2].parse().unwrap(), p[3].parse().unwrap()) {
+          Ok(pl) => {
+            st.pool = Some(pl);
+            "ok".into()
+          }
+          Err(e) => format!("setup-error {}", e),
+        },
+        (_, None) => "no-pool".into(),
+        ("acquire", Some(pl)) => show(pl.acquire(p[2].parse().unwrap())),
+        ("lease", Some(pl)) => show(pl.lease()),
+        ("droplease", Some(pl)) => b(pl.drop_lease(p[2].parse().unwrap(), p[3] == "1")),
+        ("release", Some(pl)) => {
+          pl.release(p[2].parse().unwrap());
+          "ok".into()
+        }
+        ("state", Some(pl)) => {
+          let (free, used) = pl.state();
+          format!(
+            "free=[{}] used=[{}]",
+            free.iter().map(|x| x.to_string()).collect::<Vec<_>>().join(","),
+            used.iter().map(|x| if *x { "1" } else { "0" }).collect::<Vec<_>>().join("")
+          )
+        }
+        _ => "bad-op".into(),
+      }
+    }
     "stash" => match p[1] {
       "new" => {
         st.stash_senders.clear();
